@@ -67,7 +67,7 @@ def check_separators(prog, rep, entries):
         for s in segs:
             for clos, inp, ev in split_closures(prog, e, s):
                 found = True
-                if clos[0] != 'closure':
+                if clos[0] not in ('closure', 'fn'):
                     seen[(label, 'not-a-closure')] = (None, ev[3], fn)
                     continue
                 m = models.byte_closure(e, s.state, clos)
